@@ -341,7 +341,7 @@ def check_load(spec, ctx):
             ctx.close("integrate_geo_exact", gotI, refI, rtol=1e-10, atol=1e-12)
         ip = ctx.sut(assemble.inner_products, kvs, fphys, f_physical=True, geo=geo, what="inner_products(physical, geo)")
         ctx.close("inner_products_sum", float(np.sum(ip)), float(gotI), rtol=1e-10, atol=1e-12)
-        ctx.flag("affine_geometry")
+        ctx.flag("affine_geometry", "orientation_reversing" if float(np.linalg.det(np.asarray(spec["geo"]["A"], dtype=float))) < 0 else None)
     ctx.flag("dim%d" % dim, "p0" if min(p for _, p in kns) == 0 else None, "mult>1" if any(gk.has_multiple_knots(k) for k in kvss) else None)
     ctx.nontrivial = min(p for _, p in kns) <= 1 or any(gk.has_multiple_knots(k) for k in kvss) or dim == 3
 
@@ -354,7 +354,8 @@ def strat_load(draw):
     monos = []
     for _ in range(draw(st.integers(1, 3))):
         monos.append([draw(st.integers(-4, 4)) / 2.0, [draw(st.integers(0, 3)) for _ in range(dim)]])
-    g = draw(gg.geometry_map(max(dim, 2), pmax=1, nmax=1, nurbs=False))
+    # orientation-reversing affine maps included: integrals over the mapped domain carry |det J| (the reference does too)
+    g = draw(gg.geometry_map(max(dim, 2), pmax=1, nmax=1, nurbs=False, orient_preserving=False))
     g["amp"] = 0.0      # affine
     if dim == 1:
         g = draw(gg.geometry_map(1, pmax=1, nmax=1, nurbs=False))
